@@ -229,6 +229,30 @@ def generic_setter_history(member):
 def helper_histories():
     """BOUNDED histories for the helper methods of Atoms: recenter (structure factors follow the new positions) and set_k (default weights)."""
     bad = []
+    # clear() throws away the grid quantities, NOT the reductions applied by helpers: trs() / set_k() followed by clear() and a build (or an SCF construction)
+    from eminus import SCF
+
+    for fin in ("build()", "SCF(atoms)"):
+        a = _mk()
+        a.kpts.kmesh = 2
+        a.kpts.gamma_centered = False
+        a.build()
+        a.kpts.trs()
+        a.build()
+        nk, kk, ww = a.kpts.Nk, np.asarray(a.kpts.k).copy(), np.asarray(a.kpts.wk).copy()
+        a.clear()
+        a = a.build() if fin == "build()" else SCF(a, verbose="critical").atoms
+        if a.kpts.Nk != nk or not np.allclose(np.asarray(a.kpts.k), kk) or not np.allclose(np.asarray(a.kpts.wk), ww) or len(a.active) != nk + 1 or np.asarray(a.occ.f).shape[0] != nk:
+            bad.append(dict(history=f"kmesh = 2 (Monkhorst-Pack); build(); kpts.trs(); build(); clear(); {fin}", Nk_after_trs=int(nk), Nk_now=int(a.kpts.Nk), masks=len(a.active) - 1, filling_rows=int(np.asarray(a.occ.f).shape[0])))
+        a = _mk()
+        a.kpts.kmesh = [2, 1, 1]
+        a.build()
+        a.set_k([[0.1, 0.0, 0.0], [0.2, 0.1, 0.0], [0.0, 0.3, 0.1]], [0.2, 0.3, 0.5])
+        a.build()
+        a.clear()
+        a = a.build() if fin == "build()" else SCF(a, verbose="critical").atoms
+        if a.kpts.Nk != 3 or not np.allclose(np.asarray(a.kpts.wk), [0.2, 0.3, 0.5]) or not np.allclose(np.asarray(a.kpts.k)[2], [0.0, 0.3, 0.1]):
+            bad.append(dict(history=f"kmesh = [2, 1, 1]; build(); set_k(three weighted points); build(); clear(); {fin}", Nk_now=int(a.kpts.Nk), weights=np.asarray(a.kpts.wk).tolist()))
     # recenter: the object equals a fresh object with the same final positions
     for center in (None, [1.0, 2.0, 3.0]):
         a = _mk(atom=["Si", "C"], pos=[[0.3, 0.1, 0.2], [1.5, 2.4, 0.3]], a=[[6.0, 0.5, 0.0], [0.0, 7.0, 0.0], [0.3, 0.0, 8.0]])
